@@ -9,6 +9,7 @@ import (
 
 	"github.com/tendermint/tendermint/crypto"
 	tmed "github.com/tendermint/tendermint/crypto/ed25519"
+	sm "github.com/tendermint/tendermint/state"
 	tmtypes "github.com/tendermint/tendermint/types"
 )
 
@@ -285,3 +286,45 @@ func (c *Cluster) ProposerAddress() string {
 }
 
 var _ = crypto.AddressSize
+
+// MakeDuplicateVoteEvidence builds real evidence: two conflicting precommits for `height` signed with the
+// validator's key. Returns nil if the simulator does not hold the key or the validator was not in the
+// set at that height (the real VerifyEvidence would reject the block).
+func (c *Cluster) MakeDuplicateVoteEvidence(valAddrHex string, height int64) tmtypes.Evidence {
+	priv, ok := c.ValPrivs[valAddrHex]
+	if !ok || height < 1 || height > c.Height() {
+		return nil
+	}
+	ref := c.Ref()
+	vals, err := sm.LoadValidators(ref.Disk.StateDB, height)
+	if err != nil {
+		return nil
+	}
+	idx, val := vals.GetByAddress(priv.PubKey().Address())
+	if val == nil {
+		return nil
+	}
+	mk := func(tag byte) *tmtypes.Vote {
+		hash := make([]byte, 32)
+		for i := range hash {
+			hash[i] = tag ^ byte(i) ^ byte(height)
+		}
+		v := &tmtypes.Vote{
+			Type: tmtypes.PrecommitType, Height: height, Round: 0,
+			BlockID:          tmtypes.BlockID{Hash: hash, PartsHeader: tmtypes.PartSetHeader{Total: 1, Hash: hash}},
+			Timestamp:        c.Blocks[height-1].Block.Time.Add(time.Second),
+			ValidatorAddress: val.Address, ValidatorIndex: idx,
+		}
+		sig, err := priv.Sign(v.SignBytes(c.World.ChainID))
+		if err != nil {
+			return nil
+		}
+		v.Signature = sig
+		return v
+	}
+	a, b := mk(0x11), mk(0xee)
+	if a == nil || b == nil {
+		return nil
+	}
+	return tmtypes.NewDuplicateVoteEvidence(priv.PubKey(), a, b)
+}
